@@ -2089,10 +2089,20 @@ func ruleConstIndexGuarded(r *Run, rels []string, floor int) {
 		if !in {
 			continue
 		}
+		var checkAny func(at ssa.Instruction, x ssa.Value, k int64)
+		checkStr := func(at ssa.Instruction, x ssa.Value, k int64) {
+			if _, isC := x.(*ssa.Const); isC {
+				return
+			}
+			checkAny(at, x, k)
+		}
 		check := func(at ssa.Instruction, x ssa.Value, k int64) {
 			if _, isSlice := x.Type().Underlying().(*types.Slice); !isSlice {
 				return
 			}
+			checkAny(at, x, k)
+		}
+		checkAny = func(at ssa.Instruction, x ssa.Value, k int64) {
 			// literals of known length
 			if sl, ok := x.(*ssa.Slice); ok {
 				if al, ok := sl.X.(*ssa.Alloc); ok {
@@ -2122,8 +2132,15 @@ func ruleConstIndexGuarded(r *Run, rels []string, floor int) {
 						op = token.LEQ
 					}
 				}
+				// s != "" on the indexed string itself
+				if (lx == x || describe(lx, 0) == describe(x, 0)) && k == 0 {
+					if sv, ok := constStr(c); ok && sv == "" && ((op == token.NEQ && f.Truth) || (op == token.EQL && !f.Truth)) {
+						safe = true
+					}
+				}
 				lc, ok := lx.(*ssa.Call)
 				if !ok {
+					// strings.HasPrefix(s, "x") true: s is not empty
 					continue
 				}
 				if bi, ok := lc.Call.Value.(*ssa.Builtin); !ok || bi.Name() != "len" || len(lc.Call.Args) != 1 {
@@ -2171,6 +2188,13 @@ func ruleConstIndexGuarded(r *Run, rels []string, floor int) {
 		}
 		allInstrs(fn, func(in ssa.Instruction) {
 			switch x := in.(type) {
+			case *ssa.Index:
+				// s[k] on a string
+				if bt, ok := x.X.Type().Underlying().(*types.Basic); ok && bt.Info()&types.IsString != 0 {
+					if k, ok := constInt(x.Index); ok {
+						checkStr(x, x.X, k)
+					}
+				}
 			case *ssa.IndexAddr:
 				if k, ok := constInt(x.Index); ok {
 					check(x, x.X, k)
@@ -2541,5 +2565,214 @@ func ruleBatchAggregatorsStateless(r *Run) {
 	}
 	if good {
 		o.OK("%d Aggregate method(s), none writes its receiver", n)
+	}
+}
+
+// ruleBothSidesAdvance (PV-ONCE): a binary step iterator reads one step from each side for every
+// step it reports: on every path of Next that returns true both inner iterators were advanced
+// (a side that is skipped when the other is empty falls behind the grid).
+func ruleBothSidesAdvance(r *Run) {
+	p := r.P
+	o := r.Ob("PV-ONCE", "logqlmetric binary iterators advance both sides", "every path of binOpIterator.Next / mergeBinOpIterator.Next that reports a step has called Next on the left and on the right iterator")
+	n, good := 0, true
+	for _, tn := range []string{"binOpIterator", "mergeBinOpIterator"} {
+		fn := p.Method(metricPkg, tn, "Next")
+		if fn == nil {
+			good = false
+			o.Fail("-", "%s.Next not found", tn)
+			continue
+		}
+		inG := map[*ssa.Function]bool{}
+		for _, g := range funcGroup(fn) {
+			inG[g] = true
+		}
+		w := &feWalker{Fn: fn, MaxPath: 20000, Inline: func(c *ssa.Function, d int) bool { return inG[c] && c.Parent() == nil && d <= 2 }}
+		ends := w.Run()
+		if w.Aborted {
+			good = false
+			o.Undecide(r.pos(fn.Pos()), "path enumeration aborted")
+			continue
+		}
+		for _, e := range ends {
+			if e.Cut || len(e.Results) != 1 || !e.Results[0].Known || !constant.BoolVal(e.Results[0].C) {
+				continue
+			}
+			n++
+			sides := map[string]bool{}
+			for _, c := range e.State.calls {
+				call, ok := c.Call.(*ssa.Call)
+				if !ok || !call.Call.IsInvoke() || call.Call.Method.Name() != "Next" {
+					continue
+				}
+				if f, _, ok := loadOfField(call.Call.Value); ok {
+					sides[f] = true
+				}
+			}
+			if len(sides) < 2 {
+				good = false
+				var got []string
+				for k := range sides {
+					got = append(got, k)
+				}
+				o.Fail(r.pos(e.Term.Pos()), "%s reports a step on a path that advanced only %v: the other side falls one step behind", shortFuncName(fn), got)
+				break
+			}
+		}
+	}
+	if n == 0 && good {
+		good = false
+		o.Fail("-", "no reporting path found")
+	}
+	if good {
+		o.OK("%d reporting path(s), each advances both sides", n)
+	}
+}
+
+// ruleSetAttrsWhole (PV-WHOLE): every attribute of a record becomes a label: the callback that
+// SetAttrs hands to pcommon.Map.Range never stops the iteration (it returns true on every path)
+// and sets a label on every path.
+func ruleSetAttrsWhole(r *Run) {
+	p := r.P
+	eng := modPath + "/" + enginePkg
+	o := r.Ob("PV-WHOLE", "logqlengine.(*LabelSet).SetAttrs", "the attribute callback returns true on every path (Range is never cut short) and stores a label on every path: no attribute is skipped, none hides the ones after it")
+	fn := p.Method(enginePkg, "LabelSet", "SetAttrs")
+	if fn == nil {
+		o.Fail("-", "SetAttrs not found")
+		return
+	}
+	var cb *ssa.Function
+	for _, g := range funcGroup(fn) {
+		for _, c := range callsIn(g) {
+			if pk, nm := calleePkgName(c); strings.HasSuffix(pk, "pdata/pcommon") && nm == "Range" && len(c.Common().Args) == 2 {
+				if f, _ := predicateOf(c.Common().Args[1]); f != nil {
+					cb = f
+				}
+			}
+		}
+	}
+	if cb == nil {
+		o.Fail(r.pos(fn.Pos()), "no pcommon.Map.Range callback found")
+		return
+	}
+	good := true
+	w := &feWalker{Fn: cb, MaxPath: 5000, Inline: inlineHelpers(cb)}
+	nEnds := 0
+	for _, e := range w.Run() {
+		if e.Cut || len(e.Results) != 1 {
+			continue
+		}
+		nEnds++
+		if !e.Results[0].Known || !constant.BoolVal(e.Results[0].C) {
+			good = false
+			o.Fail(r.pos(e.Term.Pos()), "the callback can return %s: returning false stops Range, the attributes after this one are lost", keptWord(e.Results[0]))
+		}
+		set := false
+		for _, c := range e.State.calls {
+			if callIs(c.Call, eng, "(*LabelSet).Set") {
+				set = true
+			}
+		}
+		if !set {
+			good = false
+			o.Fail(r.pos(e.Term.Pos()), "a path through the callback stores no label: an attribute is skipped")
+		}
+	}
+	if nEnds == 0 {
+		o.Fail(r.pos(cb.Pos()), "no path through the callback")
+		return
+	}
+	if good {
+		o.OK("%d path(s): Set(KeyToLabel(k), v); return true", nEnds).At(r.pos(cb.Pos()))
+	}
+}
+
+// ruleEvalParamsUnmodified (PV-ROLE): the range the caller resolved is the range that is
+// evaluated: no function of the engine assigns a field of an EvalParams value (alignment,
+// clamping or defaulting of Start/End/Step would move the window the daemon is asked for).
+func ruleEvalParamsUnmodified(r *Run) {
+	p := r.P
+	o := r.Ob("PV-ROLE", "logqlengine EvalParams", "EvalParams reach the evaluators as the caller gave them: no field of an EvalParams value is assigned in the engine")
+	n, good := 0, true
+	for _, fn := range p.SrcFuncs() {
+		if pkgPathOf(fn) != modPath+"/"+enginePkg {
+			continue
+		}
+		n++
+		allInstrs(fn, func(in ssa.Instruction) {
+			st, ok := in.(*ssa.Store)
+			if !ok {
+				return
+			}
+			f, base, ok := fieldNameOf(st.Addr)
+			if !ok || typeKey(derefType(base.Type())) != "EvalParams" {
+				return
+			}
+			// a composite literal under construction is not a modification
+			if al, ok := base.(*ssa.Alloc); ok {
+				whole := false
+				for _, s2 := range storesTo(al) {
+					_ = s2
+					whole = true
+				}
+				if !whole {
+					return
+				}
+			}
+			good = false
+			o.Fail(r.pos(st.Pos()), "%s assigns EvalParams.%s: the evaluated range is no longer the one the caller resolved", shortFuncName(fn), f)
+		})
+	}
+	if good {
+		o.OK("%d function(s), no assignment to an EvalParams field", n)
+	}
+}
+
+// ruleModifierGuardComplete (PV-GUARD): vector matching modifiers are parsed but not evaluated:
+// the guard of BinOp that reports them as unsupported looks at every component of the modifier
+// (operator, its label list, group side, included labels), so none is silently ignored.
+func ruleModifierGuardComplete(r *Run) {
+	p := r.P
+	o := r.Ob("PV-GUARD", "logqlmetric.BinOp modifier guard", "the unsupported-modifier guard of BinOp reads every field of BinOpModifier except ReturnBool: on(), ignoring(), group_left/right with or without labels are all reported")
+	fn := p.Func(metricPkg, "BinOp")
+	mt := p.NamedType(logqlPkg, "BinOpModifier")
+	if fn == nil || mt == nil {
+		o.Fail("-", "BinOp / BinOpModifier not found")
+		return
+	}
+	st, ok := mt.Underlying().(*types.Struct)
+	if !ok {
+		o.Fail("-", "BinOpModifier is not a struct")
+		return
+	}
+	read := map[string]bool{}
+	for _, g := range funcGroup(fn) {
+		allInstrs(g, func(in ssa.Instruction) {
+			switch x := in.(type) {
+			case *ssa.FieldAddr:
+				if types.Identical(derefType(x.X.Type()), mt) {
+					if f, _, ok := fieldNameOf(x); ok {
+						read[f] = true
+					}
+				}
+			case *ssa.Field:
+				if types.Identical(x.X.Type(), mt) {
+					read[canonName(st.Field(x.Field))] = true
+				}
+			}
+		})
+	}
+	good := true
+	for i := 0; i < st.NumFields(); i++ {
+		f := canonName(st.Field(i))
+		if f == "ReturnBool" {
+			continue
+		}
+		if !read[f] {
+			good = false
+			o.Fail(r.pos(fn.Pos()), "BinOp never looks at BinOpModifier.%s: a query using it is evaluated as if it were not written", f)
+		}
+	}
+	if good {
+		o.OK("all matching fields of the modifier are tested").At(r.pos(fn.Pos()))
 	}
 }
